@@ -26,6 +26,12 @@
     C01_roundtrip, C01_roundtrip_identical, _fragment, _fragment_identical, _writable
         THE CLOSED LOOP on strings: `parseString` (reference tokenizer, Model/Lex.lean, feeding the builder)
         of `to_string tree` returns the tree; no tokenizer hypothesis (C01_lexCanon_document / _fragment)
+  A start node INSIDE the tree (`standalone`, Model/InnerStartSpec.lean; Lemmas/InnerStart*.lean):
+    C01_inner_tokens, C01_inner_serialisation (+ _params)   `to_string(inner element)` IS `to_string` of the
+        standalone document (the element with the inherited declarations as namespace nodes in front)
+    C01_inner_standalone_representable, C01_inner_serialises
+    C01_roundtrip_inner (+ _nodes, _writable)   parsing it gives the standalone document; its document
+        element is deep_equal to the inner element
   The `LexCanon`-parametric versions (C01_main*) hold for ANY tokenizer meeting the contract.
 -/
 import XotModel.Lemmas.Entity
@@ -37,6 +43,7 @@ import XotModel.Lemmas.RoundTripEncode
 import XotModel.Lemmas.RoundTripSerialises
 import XotModel.Lemmas.RoundTripDeepEqual
 import XotModel.Lemmas.LexCanon
+import XotModel.Lemmas.InnerStartSerialises
 import XotModel.Model.ParseString
 import XotModel.Props.C02
 
@@ -542,5 +549,178 @@ theorem C01_roundtrip_writable (env : Env) (t : Tree) (hr : Representable env t 
 example : ∃ p, parseString .document c01Env c01Text = .ok p ∧ p.tree = c01Doc ∧ p.env = c01Env ∧
     deepEqual p.tree c01Doc = true :=
   C01_roundtrip_identical c01Env c01Doc (by decide) c01Text (by decide)
+
+/-! ### A start node INSIDE the tree: `to_string(element)` for an element that has ancestors
+
+`XmlSerializer::new` seeds the name stack with `namespaces_in_scope(node)` and `gen_edge_start` writes, on the
+start element, one declaration per in-scope binding the element does not declare itself — before its own
+declarations, nearest ancestor first.  `standalone t q` (Model/InnerStartSpec.lean) is the document this text
+stands for: `D [ e' ]`, `e'` = the element at `q` with one namespace node per inherited declaration in front
+of its children (all in-scope bindings not declared by the element, except the built-in `xml` binding). -/
+
+/-- **Theorem A, tokens**: the tokens `to_string(node at q)` renders are the tokens of the standalone
+    document serialised from its root — for EVERY tree (sound or not), every path to an element,
+    `unescaped_gt` on or off; the two fail together, with the same error. -/
+theorem C01_inner_tokens (env : Env) (ugt : Bool) (t : Tree) (q : Path) (name : Nat) (ks : List Tree)
+    (hat : t.at? q = some (.node (.element name) ks)) :
+    ∃ t', standalone t q = some t' ∧ serTokensAt env ugt t q = serTokensAt env ugt t' [] :=
+  serTokensAt_standalone ugt t q name ks hat
+
+/-- **Theorem A** (`C01_inner_serialisation`): `to_string(inner element)` IS `to_string(standalone document)`
+    — the same text, or the same error.  Side condition as in `C01_serialised_is_rendering`: `xml` and the
+    prefixes the tree declares have a non-empty spelling (implied by `nodeOK` everywhere). -/
+theorem C01_inner_serialisation (env : Env) (t : Tree) (q : Path) (name : Nat) (ks : List Tree)
+    (hx : env.prefixStr Env.xmlPrefix ≠ []) (ht : t.allNodes (declsNamed env) = true)
+    (hat : t.at? q = some (.node (.element name) ks)) :
+    ∃ t', standalone t q = some t' ∧ toXmlString env t q = toXmlString env t' [] :=
+  serializeString_standalone {} rfl t q name ks hx ht hat
+
+/-- … for any token parameters without CDATA-section elements (`unescaped_gt`). -/
+theorem C01_inner_serialisation_params (env : Env) (pr : TokenParams) (hcd : pr.cdataSectionElements = [])
+    (t : Tree) (q : Path) (name : Nat) (ks : List Tree)
+    (hx : env.prefixStr Env.xmlPrefix ≠ []) (ht : t.allNodes (declsNamed env) = true)
+    (hat : t.at? q = some (.node (.element name) ks)) :
+    ∃ t', standalone t q = some t' ∧ serializeString env pr t q = serializeString env pr t' [] :=
+  serializeString_standalone pr hcd t q name ks hx ht hat
+
+/-- The standalone document of an element of a tree that is `nodeOK` everywhere (ancestors included: the
+    inherited declarations are their namespace nodes) is in the C01 domain: the inherited declarations
+    are well-formed, their prefixes pairwise distinct and not declared by the element. -/
+theorem C01_inner_standalone_representable (env : Env) (t : Tree) (q : Path) (name : Nat) (ks : List Tree)
+    (henv : envOK env = true) (hok : t.allNodes (nodeOK env) = true)
+    (hat : t.at? q = some (.node (.element name) ks))
+    (hids : (xmlIdValues env (.node (.element name) ks)).Nodup) :
+    ∃ X, standalone t q = some (.node .document [.node (.element name) (nsLeaves X ++ ks)]) ∧
+      Representable env (.node .document [.node (.element name) (nsLeaves X ++ ks)]) = true :=
+  standalone_representable henv t q name ks hok hat hids
+
+/-- `to_string(node at q)` succeeds exactly when every namespaced name below the node has a usable prefix
+    in scope (`namesWritable env t q`: the serialiser's `MissingPrefix` checks with the name stack started
+    from `namespaces_in_scope(node)`) — any node kind, any path that exists. -/
+theorem C01_inner_serialises (env : Env) (t : Tree) (q : Path) (sub : Tree) (henv : envOK env = true)
+    (hok : t.allNodes (nodeOK env) = true) (hat : t.at? q = some sub) :
+    (∃ s, toXmlString env t q = .ok s) ↔ namesWritable env t q = some true := by
+  rw [← serTokensAt_ok_iff henv false t q sub hok hat]
+  have hx : env.prefixStr Env.xmlPrefix ≠ [] := by rw [envOK_xmlPrefix env henv]; simp
+  have h := C01_serialised_is_rendering_at env {} t q rfl hx (nodeOK_declsNamed env t hok)
+  show (∃ s, serializeString env {} t q = .ok s) ↔ _
+  rw [h]
+  cases serTokensAt env false t q <;> simp [exceptIsOk]
+
+/-- **Theorem B, general form**: `t` any tree that is `nodeOK` everywhere (a document, a fragment, or a
+    parentless element with the start node below it), sane tables, no repeated `xml:id` value below the start
+    element.  If `to_string(element at q)` succeeds, parsing the text succeeds and gives — id for id, tables
+    unchanged — the standalone document; its document element is the start element with the inherited
+    declarations in front, and `deep_equal` to the start element. -/
+theorem C01_roundtrip_inner_nodes (env : Env) (t : Tree) (q : Path) (name : Nat) (ks : List Tree)
+    (henv : envOK env = true) (hok : t.allNodes (nodeOK env) = true)
+    (hat : t.at? q = some (.node (.element name) ks))
+    (hids : (xmlIdValues env (.node (.element name) ks)).Nodup) (s : Str)
+    (hs : toXmlString env t q = .ok s) :
+    ∃ p X, standalone t q = some (.node .document [.node (.element name) (nsLeaves X ++ ks)]) ∧
+      Representable env (.node .document [.node (.element name) (nsLeaves X ++ ks)]) = true ∧
+      parseString .document env s = .ok p ∧
+      p.tree = .node .document [.node (.element name) (nsLeaves X ++ ks)] ∧ p.env = env ∧
+      deepEqual (.node (.element name) (nsLeaves X ++ ks)) (.node (.element name) ks) = true := by
+  obtain ⟨X, h1, hr⟩ := standalone_representable henv t q name ks hok hat hids
+  have hx : env.prefixStr Env.xmlPrefix ≠ [] := by rw [envOK_xmlPrefix env henv]; simp
+  obtain ⟨t', h2, h3⟩ := C01_inner_serialisation env t q name ks hx (nodeOK_declsNamed env t hok) hat
+  rw [h1, Option.some.injEq] at h2
+  subst h2
+  rw [h3] at hs
+  obtain ⟨p, k1, k2, k3, _⟩ := C01_roundtrip_identical env _ hr s hs
+  refine ⟨p, X, h1, hr, k1, k2, k3, ?_⟩
+  have hfrag : RepresentableFragment env (.node .document [.node (.element name) (nsLeaves X ++ ks)]) = true := by
+    simp only [Representable, Bool.and_eq_true] at hr; exact hr.1
+  obtain ⟨_, _, hn, _⟩ := (representableFragment_iff env _).mp hfrag
+  exact deepEqual_prepend_ns name ks X (allNodes_kid hn (by simp)) (ist_allNodes_at? q t _ hok hat)
+
+/-- **Theorem B** (`C01_roundtrip_inner`): for an element anywhere inside a representable document or
+    fragment: if `to_string(element)` succeeds, parsing the text gives the standalone document, and the
+    reparsed document element is `deep_equal` to the inner element (deep equality does not see
+    declarations). -/
+theorem C01_roundtrip_inner (env : Env) (t : Tree) (hr : RepresentableFragment env t = true) (q : Path)
+    (name : Nat) (ks : List Tree) (hat : t.at? q = some (.node (.element name) ks)) (s : Str)
+    (hs : toXmlString env t q = .ok s) :
+    ∃ p X, standalone t q = some (.node .document [.node (.element name) (nsLeaves X ++ ks)]) ∧
+      Representable env (.node .document [.node (.element name) (nsLeaves X ++ ks)]) = true ∧
+      parseString .document env s = .ok p ∧
+      p.tree = .node .document [.node (.element name) (nsLeaves X ++ ks)] ∧ p.env = env ∧
+      deepEqual (.node (.element name) (nsLeaves X ++ ks)) (.node (.element name) ks) = true := by
+  obtain ⟨henv, _, hn, hid⟩ := (representableFragment_iff env t).mp hr
+  exact C01_roundtrip_inner_nodes env t q name ks henv hn hat
+    (hid.sublist (xmlIdValues_at?_sublist q t _ hat)) s hs
+
+/-- The same from the decidable condition: an element of a representable document every namespaced name
+    below which has a usable prefix in scope serialises on its own, and the text parses back to the
+    standalone document. -/
+theorem C01_roundtrip_inner_writable (env : Env) (t : Tree) (hr : RepresentableFragment env t = true)
+    (q : Path) (name : Nat) (ks : List Tree) (hat : t.at? q = some (.node (.element name) ks))
+    (hw : namesWritable env t q = some true) :
+    ∃ s p X, toXmlString env t q = .ok s ∧
+      standalone t q = some (.node .document [.node (.element name) (nsLeaves X ++ ks)]) ∧
+      Representable env (.node .document [.node (.element name) (nsLeaves X ++ ks)]) = true ∧
+      parseString .document env s = .ok p ∧
+      p.tree = .node .document [.node (.element name) (nsLeaves X ++ ks)] ∧ p.env = env ∧
+      deepEqual (.node (.element name) (nsLeaves X ++ ks)) (.node (.element name) ks) = true := by
+  obtain ⟨henv, _, hn, _⟩ := (representableFragment_iff env t).mp hr
+  obtain ⟨s, hs⟩ := (C01_inner_serialises env t q _ henv hn hat).mpr hw
+  obtain ⟨p, X, h1, h0, h2, h3, h4, h5⟩ := C01_roundtrip_inner env t hr q name ks hat s hs
+  exact ⟨s, p, X, hs, h1, h0, h2, h3, h4, h5⟩
+
+/-! Non-vacuity: `<r xmlns="urn:a" xmlns:p="urn:b" xmlns:q="urn:b">x<m xmlns:p="urn:a" q:w="v"><q:c/></m></r>`;
+    the inner element `m` inherits the default namespace and `q` and RE-DECLARES `p`: `to_string(m)` writes
+    `xmlns="urn:a" xmlns:q="urn:b"` (inherited, in scope order) before its own `xmlns:p="urn:a"`. -/
+
+def c01InnerEnv : Env where
+  namespaces := [[], xmlNamespaceUri, ['u', 'r', 'n', ':', 'a'], ['u', 'r', 'n', ':', 'b']]
+  prefixes := [[], ['x', 'm', 'l'], ['p'], ['q']]
+  names := [(['s', 'p', 'a', 'c', 'e'], 1), (['i', 'd'], 1), (['r'], 2), (['c'], 3), (['m'], 2), (['w'], 3)]
+
+def c01InnerDoc : Tree :=
+  .node .document [
+    .node (.element 2) [
+      .node (.namespace 0 2) [], .node (.namespace 2 3) [], .node (.namespace 3 3) [],
+      .node (.text ['x']) [],
+      .node (.element 4) [
+        .node (.namespace 2 2) [],
+        .node (.attribute 5 ['v']) [],
+        .node (.element 3) []]]]
+
+/-- The standalone document of `m` (path `[0, 4]`). -/
+def c01InnerStandalone : Tree :=
+  .node .document [
+    .node (.element 4) [
+      .node (.namespace 0 2) [], .node (.namespace 3 3) [],
+      .node (.namespace 2 2) [],
+      .node (.attribute 5 ['v']) [],
+      .node (.element 3) []]]
+
+def c01InnerText : Str :=
+  "<m xmlns=\"urn:a\" xmlns:q=\"urn:b\" xmlns:p=\"urn:a\" q:w=\"v\"><q:c/></m>".toList
+
+example : Representable c01InnerEnv c01InnerDoc = true := by decide
+example : namespacesInScope c01InnerDoc [0, 4] = some [(2, 2), (0, 2), (3, 3), (1, 1)] := by decide
+example : standalone c01InnerDoc [0, 4] = some c01InnerStandalone := rfl
+example : toXmlString c01InnerEnv c01InnerDoc [0, 4] = .ok c01InnerText := by decide
+example : toXmlString c01InnerEnv c01InnerStandalone [] = .ok c01InnerText := by decide
+example : namesWritable c01InnerEnv c01InnerDoc [0, 4] = some true := by decide
+
+/-- Closed: the text of the inner element parses to its standalone document. -/
+example : ∃ p, parseString .document c01InnerEnv c01InnerText = .ok p ∧ p.tree = c01InnerStandalone ∧
+    p.env = c01InnerEnv ∧
+    deepEqual (.node (.element 4) c01InnerStandalone.kids.head!.kids)
+      (.node (.element 4) [.node (.namespace 2 2) [], .node (.attribute 5 ['v']) [], .node (.element 3) []]) = true := by
+  obtain ⟨p, X, h1, _, h2, h3, h4, h5⟩ := C01_roundtrip_inner c01InnerEnv c01InnerDoc (by decide) [0, 4] 4 _ rfl
+    c01InnerText (by decide)
+  have hX : standalone c01InnerDoc [0, 4] = some c01InnerStandalone := rfl
+  rw [hX, Option.some.injEq] at h1
+  rw [← h1] at h3
+  exact ⟨p, h2, h3, h4, by decide⟩
+
+/-- The whole document, for comparison: in place `m` writes only its own declaration. -/
+example : toXmlString c01InnerEnv c01InnerDoc [] =
+    .ok "<r xmlns=\"urn:a\" xmlns:p=\"urn:b\" xmlns:q=\"urn:b\">x<m xmlns:p=\"urn:a\" q:w=\"v\"><q:c/></m></r>".toList := by
+  decide
 
 end XotModel.Props
